@@ -165,14 +165,14 @@ func (e *TemplateJoinExpr) Value(ctx *hcl.EvalContext) (cty.Value, hcl.Diagnosti
 		panic("TemplateJoinExpr got null tuple")
 	}
 	if tuple.Type() == cty.DynamicPseudoType {
-		return cty.UnknownVal(cty.String), diags
+		return cty.UnknownVal(cty.String).WithSameMarks(tuple), diags
 	}
 	if !tuple.Type().IsTupleType() {
 		// This indicates a bug in the code that constructed the AST.
 		panic("TemplateJoinExpr got non-tuple tuple")
 	}
 	if !tuple.IsKnown() {
-		return cty.UnknownVal(cty.String), diags
+		return cty.UnknownVal(cty.String).WithSameMarks(tuple), diags
 	}
 
 	tuple, marks := tuple.Unmark()
@@ -194,7 +194,7 @@ func (e *TemplateJoinExpr) Value(ctx *hcl.EvalContext) (cty.Value, hcl.Diagnosti
 			continue
 		}
 		if val.Type() == cty.DynamicPseudoType {
-			return cty.UnknownVal(cty.String).WithMarks(marks), diags
+			return cty.UnknownVal(cty.String).WithMarks(allMarks...).WithSameMarks(val), diags
 		}
 		strVal, err := convert.Convert(val, cty.String)
 		if err != nil {
@@ -212,7 +212,7 @@ func (e *TemplateJoinExpr) Value(ctx *hcl.EvalContext) (cty.Value, hcl.Diagnosti
 			continue
 		}
 		if !val.IsKnown() {
-			return cty.UnknownVal(cty.String).WithMarks(marks), diags
+			return cty.UnknownVal(cty.String).WithMarks(allMarks...).WithSameMarks(val), diags
 		}
 
 		strVal, strValMarks := strVal.Unmark()
